@@ -46,6 +46,10 @@ add("C15", "genrun", "generated worlds + corpus x all backends/variants; metamor
     "In-process tier: ~6k generated worlds + the corpus x every backend/variant, each generated three times on three threads (std RandomState differs per thread and per map) and compared byte for byte. Process tier: the CLI built from /repo's working tree is run in separate processes on a sample of corpus files and generated worlds (x all 8 backends), outputs compared and `--check` run from a third process. Found and fixed three nondeterminism defects (MoonBit FFI helper order, two C# orderings); regression worlds are re-run 4x3 times every run.",
     "Hash-order nondeterminism only shows with some probability per run, hence repeated runs; ASLR-dependent behaviour is only covered by the (smaller) process tier; `--check` in place is not asserted for C++/D (they read the out-dir).")
 
+add("C33", "genrun", "generated worlds x generated per-file mutation plans; metamorphic oracle (a writing run into a byte copy changes nothing <=> --check succeeds); snapshot invariants",
+    "The CLI built from /repo writes bindings for a generated world into a directory; a generated plan mutates files (delete, flip byte, append, LF->CRLF, binary, truncate, extra file); `--check` must succeed exactly when a writing run into a byte copy would change nothing, must leave names/bytes/mtimes untouched, must not create files elsewhere, and must attribute the first stale file to line endings exactly when it differs only in line endings. 600 process-level cases quick, all 8 backends.",
+    "The oracle uses the same CLI binary in write mode (so generator statefulness such as C++/D reading the out-dir is handled); only the first stale file's message is judged, as the CLI stops there.")
+
 PENDING_REASON = "check not built yet in this session (planned in DESIGN.md §4); not claimed until it exists and passes its sensitivity runs"
 
 def main():
@@ -97,7 +101,7 @@ def main():
 NA = {}
 HOOK_COMMITS = ["b827c12", "a6f2383"]
 ENGINES = [
-    {"name": "genrun", "path": "harness/genrun", "serves_properties": ["C15", "C16"], "kind_free_text": "tape-driven constructive WIT world generator (harness/witgen) + in-process drivers for all eight generators with panic capture and output collection"},
+    {"name": "genrun", "path": "harness/genrun", "serves_properties": ["C15", "C16", "C33"], "kind_free_text": "tape-driven constructive WIT world generator (harness/witgen) + in-process drivers for all eight generators with panic capture and output collection"},
     {"name": "abisim", "path": "harness/abisim", "serves_properties": ["C01", "C02", "C03", "C04"], "kind_free_text": "recording wit_bindgen_core::abi::Bindgen + instruction interpreter + independent reference canonical ABI (harness/refabi), driven by proptest"},
     {"name": "rtpbt", "path": "harness/rtpbt", "serves_properties": ["C24"], "kind_free_text": "proptest histories against wit_bindgen::rt allocation entry points with a tracking global allocator"},
     {"name": "corepbt", "path": "harness/corepbt", "serves_properties": ["C17", "C25", "C26", "C27", "C28", "C34"], "kind_free_text": "proptest harnesses over public items of wit-bindgen-core / wit-bindgen rt / wit-bindgen-test"},
